@@ -1,5 +1,6 @@
 import CookModel.Driver.Num
 import CookModel.Driver.Convert
+import CookModel.Driver.Scale
 import CookModel.Driver.Syntax
 import CookModel.Driver.Aisle
 import CookModel.Driver.Ffi
@@ -9,6 +10,7 @@ namespace Cook.Driver
 def handlers : List (List String → Option String) := [
   handleNum,
   handleConvert,
+  handleScale,
   handleSyntax,
   handleAisle,
   handleFfi,
